@@ -47,7 +47,9 @@ Inductive label :=
 | LLookup (n : nat)       (* fn: nodeByName / findRunningChild: a registered running instance? *)
 | LCreate (n : nat)       (* fn: configPID/newPID: PreStart ran, running := true *)
 | LCount (n : nat)        (* attachAndPublish: actorsCounter++ *)
-| LAdd (n : nat)          (* attachAndPublish: tree.addNode; duplicate => canonical, counter-- *)
+| LAdd (n : nat) (child : bool)  (* attachAndPublish: tree.addNode; duplicate => counter--, and the caller gets the canonical
+                                    instance (Spawn, SpawnNamedFromFunc) or its own new unregistered one (spawnChildLocal drops
+                                    completeSpawn's result) *)
 | LFail (n : nat)         (* fn returns an error before creating anything (precondition, ctx, PreStart) *)
 | LStop (n p : nat)       (* Shutdown of instance p completes: running := false, Terminated(path) if the path has a node *)
 | LReap (n : nat).        (* death watch handles Terminated(path): counter--, deleteNode(path) *)
@@ -86,13 +88,13 @@ Definition step (s : st) (l : label) : option st :=
     | FCreated p => Some (upd s n (Nm (node x) (next x) (runs x) (FCounted p) (fid x) (waiters x) (handed x) (term x) (cnt x + 1)))
     | _ => None
     end
-  | LAdd n =>
+  | LAdd n child =>
     let x := s n in
     match flight x with
     | FCounted p =>
       match node x with
       | None => Some (upd s n (finish x (RPid p) (Some p) (runs x) (cnt x)))
-      | Some q => Some (upd s n (finish x (RPid q) (Some q) (runs x) (cnt x - 1)))   (* duplicate: canonical instance, the new one is left unmanaged *)
+      | Some q => Some (upd s n (finish x (RPid (if child then p else q)) (Some q) (runs x) (cnt x - 1)))   (* duplicate: the new one is left unmanaged *)
       end
     | _ => None
     end
@@ -167,14 +169,15 @@ Inductive daction :=
 
 Record dst := Dst { d_s : st; d_held : bool; d_gated : list nat }.
 Definition dinit : dst := Dst init false [].
+(* [kids]: the names spawned through SpawnChild *)
 
-Definition internal_label (d : dst) (n : nat) : option label :=
+Definition internal_label (kids : list nat) (d : dst) (n : nat) : option label :=
   let x := d_s d n in
   match flight x with
   | FStart => Some (LLookup n)
   | FMake => if mem n (d_gated d) then None else Some (LCreate n)
   | FCreated _ => Some (LCount n)
-  | FCounted _ => Some (LAdd n)
+  | FCounted _ => Some (LAdd n (mem n kids))
   | FNone => None
   end.
 
@@ -184,8 +187,8 @@ Fixpoint first_some {A B} (f : A -> option B) (l : list A) : option B :=
   | x :: l' => match f x with Some y => Some y | None => first_some f l' end
   end.
 
-Definition internal_step (k : nat) (d : dst) : option dst :=
-  match first_some (internal_label d) (seq 0 k) with
+Definition internal_step (kids : list nat) (k : nat) (d : dst) : option dst :=
+  match first_some (internal_label kids d) (seq 0 k) with
   | Some l => match step (d_s d) l with Some s' => Some (Dst s' (d_held d) (d_gated d)) | None => None end
   | None =>
     if d_held d then None
@@ -195,10 +198,10 @@ Definition internal_step (k : nat) (d : dst) : option dst :=
          end
   end.
 
-Fixpoint quiesce (k fuel : nat) (d : dst) : dst :=
+Fixpoint quiesce (kids : list nat) (k fuel : nat) (d : dst) : dst :=
   match fuel with
   | O => d
-  | S f => match internal_step k d with Some d' => quiesce k f d' | None => d end
+  | S f => match internal_step kids k d with Some d' => quiesce kids k f d' | None => d end
   end.
 
 Definition drive1 (d : dst) (a : daction) : option dst :=
@@ -206,7 +209,7 @@ Definition drive1 (d : dst) (a : daction) : option dst :=
   | DCall n g =>
     let winner := match flight (d_s d n) with FNone => true | _ => false end in
     match step (d_s d) (LCall n) with
-    | Some s' => Some (Dst s' (d_held d) (if winner && g then n :: d_gated d else d_gated d))
+    | Some s' => Some (Dst s' (d_held d) (if winner && g && negb (running_registered (d_s d n)) then n :: d_gated d else d_gated d))
     | None => None
     end
   | DReleasePre n =>
@@ -228,9 +231,9 @@ Definition drive1 (d : dst) (a : daction) : option dst :=
   | DReleaseDW => Some (Dst (d_s d) false (d_gated d))
   end.
 
-Definition drive (k : nat) (d : dst) (a : daction) : dst * nat :=
+Definition drive (kids : list nat) (k : nat) (d : dst) (a : daction) : dst * nat :=
   match drive1 d a with
-  | Some d' => (quiesce k (16 * S k) d', 0)
+  | Some d' => (quiesce kids k (16 * S k) d', 0)
   | None => (d, 1)
   end.
 
@@ -247,10 +250,10 @@ Definition observe (k : nat) (d : dst) : list (list nat) :=
                        sort_nats (map (fun e => res_code (snd e)) (handed x)) ]) (seq 0 k)
   ++ [ [Z.to_nat (num_actors (d_s d) (seq 0 k))] ].
 
-Fixpoint drive_obs (k : nat) (d : dst) (acts : list daction) : list (nat * list (list nat)) :=
+Fixpoint drive_obs (kids : list nat) (k : nat) (d : dst) (acts : list daction) : list (nat * list (list nat)) :=
   match acts with
   | [] => []
-  | a :: acts' => let '(d', f) := drive k d a in (f, observe k d') :: drive_obs k d' acts'
+  | a :: acts' => let '(d', f) := drive kids k d a in (f, observe k d') :: drive_obs kids k d' acts'
   end.
 
 Fixpoint nats_eqb (a b : list nat) : bool :=
@@ -263,5 +266,5 @@ Fixpoint first_obs_diff (i : nat) (xs ys : list (nat * list (list nat))) : optio
   | x :: xs', y :: ys' => if Nat.eqb (fst x) (fst y) && obs_eqb (snd x) (snd y) then first_obs_diff (S i) xs' ys' else Some i
   | _, _ => Some i
   end.
-Definition scenario_diff (c : nat * list daction * list (nat * list (list nat))) : option nat :=
-  let '(k, acts, expected) := c in first_obs_diff 0 (drive_obs k dinit acts) expected.
+Definition scenario_diff (c : list nat * nat * list daction * list (nat * list (list nat))) : option nat :=
+  let '(kids, k, acts, expected) := c in first_obs_diff 0 (drive_obs kids k dinit acts) expected.
